@@ -7,6 +7,22 @@ import (
 	"strings"
 )
 
+// vExtChoices: concrete Sec-WebSocket-Extensions responses (header lines) and whether a client that offered
+// permessage-deflate may accept them (never, if it did not offer it).
+var vExtChoices = []struct {
+	lines []string
+	ok    bool
+}{
+	{[]string{"permessage-deflate"}, true},
+	{[]string{"permessage-deflate; client_no_context_takeover"}, true},
+	{[]string{"x-other"}, false},
+	{[]string{"permessage-deflate, x-custom-mux"}, false},
+	{[]string{"permessage-deflate", "x-other"}, false},
+	{[]string{"x-other, permessage-deflate"}, false},
+	{[]string{"permessage-deflate; bogus"}, false},
+	{[]string{"permessage-deflate, permessage-deflate; client_max_window_bits=9"}, false},
+}
+
 // C13.response: verifyServerResponse on an arbitrary response (status, header strings, requested subprotocols, client
 // compression mode): nil iff status 101, Connection/Upgrade name upgrade/websocket, the Accept value matches the key that
 // was sent, the subprotocol is one that was asked for (or none), and the extensions are acceptable (C14.client).
@@ -25,21 +41,34 @@ func verifC13_response() {
 		key = "dGhlIHNhbXBsZSBub25jZQ==" // concrete key: SHA-1/base64 run for real, counterexamples replay natively
 	}
 	resp := &http.Response{StatusCode: vInt("status", 100, 599), Header: http.Header{}}
+	extFocus := vParam("extFocus", 0) == 1
+	if extFocus {
+		// everything but the extension header is a fixed valid response
+		resp.StatusCode = 101
+	}
 	conn := vSymValues("connection", 1)
+	if extFocus {
+		conn = []string{"Upgrade"}
+	}
 	upg := []string{"websocket"}
 	if vParam("symUpgrade", 1) == 1 {
 		upg = vSymValues("upgrade", 1)
 	}
 	acc := vSymValues("accept", 1)
-	if vParam("symKey", 1) == 0 && vChoose("rightAccept", 2) == 1 {
+	if vParam("symKey", 1) == 0 && (extFocus || vChoose("rightAccept", 2) == 1) {
 		acc = []string{vRefAcceptKey(key)}
 	}
 	proto := vSymValues("proto", 1)
+	if extFocus {
+		proto = nil
+	}
 	var ext []string
+	extKnown, extHonourable := false, true // concrete responses: whether a client that offered compression may accept them
 	if vParam("symExt", 1) == 1 {
 		ext = vSymValues("ext", 1)
-	} else if k := vChoose("extChoice", 4); k > 0 {
-		ext = []string{[]string{"permessage-deflate", "permessage-deflate; client_no_context_takeover", "x-other"}[k-1]}
+	} else if k := vChoose("extChoice", vParam("extChoices", 3)+1); k > 0 {
+		ext = vExtChoices[k-1].lines
+		extKnown, extHonourable = true, vExtChoices[k-1].ok && copts != nil
 	}
 	vSetHeader(resp.Header, "Connection", conn)
 	vSetHeader(resp.Header, "Upgrade", upg)
@@ -69,6 +98,9 @@ func verifC13_response() {
 		vReach("C13.response.accepted")
 		vAssert(ok, "C13.response.accepts-only-valid")
 		vAssert(extErr == nil, "C13.response.accepts-only-honourable-extensions")
+		if extKnown {
+			vAssert(extHonourable, "C13.response.accepts-only-honourable-extensions")
+		}
 		vAssert((got == nil) == (wantOpts == nil), "C13.response.options")
 		if got != nil && wantOpts != nil {
 			vAssert(*got == *wantOpts, "C13.response.options")
